@@ -114,9 +114,16 @@ func (g *gen) num(label, ntype string) uint64 {
 			v = rapid.Uint64().Draw(g.rt, label)
 		}
 	default:
-		if rapid.IntRange(0, 2).Draw(g.rt, label+".bd") == 0 {
+		switch bd := rapid.IntRange(0, 11).Draw(g.rt, label+".bd"); {
+		case bd < 4:
 			v = rapid.SampledFrom(numBoundaries).Draw(g.rt, label+".b")
-		} else {
+		case bd == 11:
+			if n, ok := dictNumber(g.rt, label); ok {
+				v = n + uint64(rapid.SampledFrom([]int{0, 0, 1, -1}).Draw(g.rt, label+".dn"))
+				break
+			}
+			fallthrough
+		default:
 			v = rapid.Uint64().Draw(g.rt, label)
 		}
 	}
@@ -238,7 +245,7 @@ var interestingLens = []int{15, 16, 17, 31, 32, 33, 63, 64, 65, 99, 100, 101, 12
 	2047, 2048, 2049, 4095, 4096, 4097, 8191, 8192, 8193, 9999, 10000, 10001, 16383, 16384, 16385, 32767, 32768, 32769, 65534, 65535}
 
 var hugeLens = []int{65536, 65537, 99999, 100000, 100001, 131071, 131072, 131073, 262143, 262144, 262145, 524287, 524288, 524289,
-	999995, 999996, 999997, 999998, 999999, 1000000, 1000001, 1048575, 1048576, 1048577, 1048600, 1100000, 1200000}
+	999995, 999996, 999997, 999998, 999999, 1000000, 1000001, 1048575, 1048576, 1048577, 1048600, 1100000, 1200000, 16777215, 16777216, 16777217, 16781876}
 
 // length of a list or prefixed text: mostly tiny, sometimes around 255/256, rarely big.
 func (g *gen) length(label string, prefixMax uint64) int {
@@ -307,6 +314,12 @@ func (g *gen) noteList(n int, prefixMax uint64) {
 }
 
 func (g *gen) text(label string, prefix string) HexBytes {
+	if rapid.IntRange(0, 15).Draw(g.rt, label+".dict") == 15 {
+		if w, ok := dictWord(g.rt, label); ok {
+			g.feat.TextOrList++
+			return append(HexBytes{}, w...)
+		}
+	}
 	n := g.length(label, NMask(prefix))
 	g.feat.TextOrList++
 	if n > 64 {
@@ -338,7 +351,11 @@ func (g *gen) unregisteredKey(label string, tb *Table, df *Field) string {
 		var k string
 		if tb.KeyType == "text" {
 			var b []byte
-			switch rapid.IntRange(0, 5).Draw(g.rt, label+".uk") {
+			switch rapid.IntRange(0, 6).Draw(g.rt, label+".uk") {
+			case 6:
+				if w, ok := dictWord(g.rt, label); ok {
+					b = w
+				}
 			case 0:
 				b = []byte(strconv.Itoa(rapid.IntRange(0, 999).Draw(g.rt, label+".n")))
 			case 1:
